@@ -64,7 +64,7 @@ def part_cooc(ctx):
             for c in var:
                 c["nullify"] = rng.random() < 0.75
             cfgs = cfgs + rng.sample(var, ctx.pick(8, 27))
-        items = cooc_gen.emit(ctx, V, ctx.pick(3 if timed else 4, 4 if timed else 5), ctx.pick(1, 2), cfgs, "Cooc with pruning/masking (%s)" % fam,
+        items = cooc_gen.emit(ctx, V, 3 if timed else ctx.pick(4, 5), 1, cfgs, "Cooc with pruning/masking (%s)" % fam,
                               invariants=cooc_gen.INVS + ["VariableRadiiWellFormed"],
                               extra_constants=dict(Prunes=tla_prunes(ps), TIMED=timed, Gaps=E("{0,1,2}" if timed else "{1}")))
         for it in items:
